@@ -121,6 +121,10 @@ func buildChain(st []Stage, path string, bid *int) *compose.Chain[gprog.Val, gpr
 		case "parallel":
 			p := compose.NewParallel()
 			for _, k := range s.Keys {
+				if strings.HasPrefix(k, "p3") {
+					p.AddPassthrough(k) // the third member of a three-way parallel hands the input through under its key
+					continue
+				}
 				p.AddLambda(k, gprog.DefaultLambda(joinp(path, k), k))
 			}
 			c.AppendParallel(p)
@@ -189,6 +193,10 @@ func chainModel(st []Stage, path string, v gprog.Val, script gprog.Script, bid *
 			out := gprog.Val{}
 			var step []gprog.Entry
 			for _, k := range s.Keys {
+				if strings.HasPrefix(k, "p3") {
+					out[k] = v // pass-through member: no execution, the input under its key
+					continue
+				}
 				step = append(step, gprog.Entry{Path: joinp(path, k), In: gprog.Canon(v)})
 				out[k] = gprog.NodeFn(k, v)
 			}
